@@ -262,6 +262,41 @@ func Wkt() Set {
 	return Set{Name: "vw", Files: files, Generate: []string{"vw/wk.proto"}, Param: "features=protoc+fast"}
 }
 
+// Proto2Sub ("vq"): proto3 messages holding messages of an IMPORTED PROTO2 type that has required fields
+// (google.protobuf.UninterpretedOption: its NamePart declares `required string name_part` and `required bool is_extension`;
+// the other fields are proto2 optional scalars with explicit presence) in every position: singular, repeated, map value, oneof
+// member, directly (NamePart) and transitively through other generated messages. A generated message of this set is initialised
+// iff every NamePart below it has both fields set: whatever the generated ProtoMethods say about it must agree with the
+// library's walk over a reference message. The codec / reflection models have no shape for explicit-presence scalars, so only
+// the engines that compare implementations load this set (runner: modelFreeSets).
+func Proto2Sub() Set {
+	uo, np := ".google.protobuf.UninterpretedOption", ".google.protobuf.UninterpretedOption.NamePart"
+	q := M{Name: "Q", Fields: []F{
+		{Name: "opt", Num: 1, Kind: Message, TypeName: uo},
+		{Name: "opts", Num: 2, Kind: Message, TypeName: uo, Rep: true},
+		{Name: "optm", Num: 3, Kind: Message, TypeName: uo, Map: true, KeyKind: String},
+		{Name: "o_opt", Num: 4, Kind: Message, TypeName: uo, Oneof: "alt"},
+		{Name: "o_part", Num: 5, Kind: Message, TypeName: np, Oneof: "alt"},
+		{Name: "o_x", Num: 6, Kind: Int32, Oneof: "alt"},
+		{Name: "part", Num: 7, Kind: Message, TypeName: np},
+		{Name: "child", Num: 8, Kind: Message, TypeName: ".vq.Q"},
+		{Name: "holders", Num: 9, Kind: Message, TypeName: ".vq.Holder", Rep: true},
+		{Name: "x", Num: 10, Kind: Int32},
+		{Name: "s", Num: 11, Kind: String},
+	}}
+	// Holder: reaches the proto2 type only through another generated message / a map of generated messages
+	h := M{Name: "Holder", Fields: []F{
+		{Name: "q", Num: 1, Kind: Message, TypeName: ".vq.Q"},
+		{Name: "by_id", Num: 2, Kind: Message, TypeName: ".vq.Q", Map: true, KeyKind: Int32},
+		{Name: "parts", Num: 3, Kind: Message, TypeName: np, Rep: true},
+		{Name: "n", Num: 4, Kind: Int64},
+	}}
+	// Plain: no proto2 type below it (always initialised)
+	pl := M{Name: "Plain", Fields: []F{{Name: "a", Num: 1, Kind: Int32}, {Name: "b", Num: 2, Kind: Bytes}}}
+	f := File{Path: "vq/q.proto", Package: "vq", GoPackage: GenBase + "vq", Msgs: []M{q, h, pl}, Deps: []string{"google/protobuf/descriptor.proto"}}
+	return Set{Name: "vq", Files: []*descriptorpb.FileDescriptorProto{Registered("google/protobuf/descriptor.proto"), f.Build()}, Generate: []string{"vq/q.proto"}, Param: "features=protoc+fast"}
+}
+
 // Renamed copies of the checked-in schemas, regenerated by the working-tree generator.
 func renameTypes(fd *descriptorpb.FileDescriptorProto, oldPkg, newPkg string, rename map[string]string) {
 	fix := func(tn *string) {
@@ -338,7 +373,7 @@ func CheckedInTest3() Set {
 
 // All sets whose generated packages are linked into the runner (when they generate and compile).
 func Linked() []Set {
-	sets := []Set{Matrix(), OneofSint(), Wkt(), CheckedInTestpb(), CheckedInTest3()}
+	sets := []Set{Matrix(), OneofSint(), Wkt(), CheckedInTestpb(), CheckedInTest3(), Proto2Sub()}
 	// + random schema sets of the run's seed (VERIF_LINKED_RANDOM = "<seed>:<count>"), so that the codec, decode and
 	// reflection engines also run on schemas nobody wrote by hand
 	var seed uint64
